@@ -59,6 +59,7 @@ type verdict struct {
 	why      string // first reason for !ok
 	dontcare bool   // expired segment / certificate no longer valid now: not judged
 	entries  int
+	badIA    addr.IA // AS named by the first entry that does not verify
 }
 
 // refVerify decides from ground truth (the PKI the simulator created) whether a wire beacon
@@ -119,6 +120,9 @@ func (w *World) refVerify(pb *cppb.PathSegment) verdict {
 				}
 			}
 		}
+		if (!found || !covered) && v.ok {
+			v.badIA = a.IA
+		}
 		switch {
 		case !found:
 			bad("entry %d (%s): signature not by a key certified for that AS", i, a.IA)
@@ -163,17 +167,32 @@ func (w *World) checkSend(a *AS, in *Intf, dst addr.IA, b *seg.PathSegment) {
 		return
 	}
 	hops := make([]addr.IA, 0, len(b.ASEntries)+1)
-	for _, e := range b.ASEntries {
+	var without []addr.IA // the same walk without the sender's own (last) entry
+	for i, e := range b.ASEntries {
 		hops = append(hops, e.Local)
+		if i < len(b.ASEntries)-1 {
+			without = append(without, e.Local)
+		}
 	}
 	hops = append(hops, in.Remote.IA)
+	without = append(without, in.Remote.IA)
 	if asRepeated(hops) {
-		w.r.Fail("c25-propagated-as-loop", "send:as-loop", "%s sent a beacon over #%d to %s creating an AS loop: %v", a.IA, in.ID, in.Remote.IA, hops)
-		return
+		sig := "send:as-loop"
+		if !asRepeated(without) {
+			sig += ":closed-by-local-as"
+		}
+		if w.viol("c25-propagated-as-loop", sig, "%s sent a beacon over #%d to %s creating an AS loop: %v", a.IA, in.ID, in.Remote.IA, hops) {
+			return
+		}
 	}
 	if !a.Pols[0].AllowISDLoop && isdLoop(hops) {
-		w.r.Fail("c25-propagated-isd-loop", "send:isd-loop", "%s (ISD loops disallowed) sent a beacon over #%d to %s creating an ISD loop: %v", a.IA, in.ID, in.Remote.IA, hops)
-		return
+		sig := "send:isd-loop"
+		if !isdLoop(without) {
+			sig += ":closed-by-local-as"
+		}
+		if w.viol("c25-propagated-isd-loop", sig, "%s (ISD loops disallowed) sent a beacon over #%d to %s creating an ISD loop: %v", a.IA, in.ID, in.Remote.IA, hops) {
+			return
+		}
 	}
 	if isdLoop(hops) {
 		w.r.Probe("isd-loop-allowed-and-sent")
